@@ -56,10 +56,15 @@ def run(ctx):
                         "frames are numbered relative to the first selected frame; the seek loop is checked separately (Seek.tla)"]
 
     # ---- 1. design level: exhaustive TLC ------------------------------------------------------------
-    cfg = "MCTFQuick.cfg" if quick else "MCTFThorough.cfg"
-    res = vlib.tlc("threaded_frames", "MCTF", cfg=cfg, timeout=3000, heap="24g", workers=8)
+    # quick: safety + liveness (termination under weak fairness) on QuickConfigs; thorough: the same, plus safety
+    # alone on the larger ThoroughConfigs (liveness checking of the big graph costs ~10x the safety run)
+    res = vlib.tlc("threaded_frames", "MCTF", cfg="MCTFQuick.cfg", timeout=3000, heap="24g", workers=8)
     vlib.tlc_must_hold(res, "ThreadedFrames invariants + termination")
-    ctx.add_tlc(cfg, res)
+    ctx.add_tlc("MCTFQuick.cfg", res)
+    if not quick:
+        res = vlib.tlc("threaded_frames", "MCTF", cfg="MCTFThorough.cfg", timeout=6000, heap="24g", workers=8)
+        vlib.tlc_must_hold(res, "ThreadedFrames invariants (larger bounds)")
+        ctx.add_tlc("MCTFThorough.cfg", res)
 
     drift = []
 
@@ -167,7 +172,7 @@ def run(ctx):
 
     vlib.log('phase 1 (TLC exhaustive) done %.0fs' % (__import__('time').time() - ctx.t0))
     # ---- 2. replay of TLC-generated schedules -------------------------------------------------------------
-    nsim = 150 if quick else 3000
+    nsim = 150 if quick else 1500
     res = vlib.tlc("threaded_frames", "MCTF", cfg="MCTFSim.cfg", simulate=max(1, nsim // 4), depth=900, workers=4,
                    seed=ctx.seed, timeout=1500)
     vlib.tlc_must_hold(res, "ThreadedFrames simulation")
@@ -203,7 +208,7 @@ def run(ctx):
 
     vlib.log('phase 2 (replay) done %.0fs' % (__import__('time').time() - ctx.t0))
     # ---- 3. random controlled runs validated by TLC (trace validation) ---------------------------------------
-    nrand = 200 if quick else 4000
+    nrand = 200 if quick else 2000
     lines = []
     for i in range(nrand):
         nw = rnd.choice([1, 2, 2, 3, 3, 4, 5, 8])
